@@ -98,6 +98,10 @@ def run(chk: Check, proj: Project) -> None:
     chk.borrow("S22", "a page rendered while ANOTHER thread is first touching a component class gets that class's complete assets: the `resolved` flag of the lazy js_file / css_file loader is set last, and the per-class Media memo is published only once every selected base is merged - a half-built object read by a concurrent render yields a page without the component's inline JS or without the inherited Media files (shared with C16-S4 / C16-S2)",
                lambda sub: (__import__("djc_sa.rules.C16", fromlist=["x"]).s4(sub, proj, proj.mod("component_media")), __import__("djc_sa.rules.C16", fromlist=["x"]).s2(sub, proj, proj.mod("component_media"))),
                only=lambda o: "resolved-is-last" in o.construct or "entry-complete-when-published" in o.construct)
+    chk.borrow("S23", "only the classes that were rendered contribute inline JS / CSS: whether a subclass overrides an inherited script is judged by `is None` on the declared value as it was written (an empty `js = \"\"` switches the parent's script off) - the lazy-resolve setup hands the declared values on unchanged (shared with C16-S1)",
+               lambda sub: __import__('djc_sa.rules.C16', fromlist=['x']).s1(sub, proj, proj.mod("component_media")), only=lambda o: "_setup_lazy_media_resolve" in o.construct)
+    chk.borrow("S24", "a page delivers its components' scripts also after the media cache lost entries (flush, expiry, eviction): whether a script is cached is asked of the backend on every render, so a lost script is stored again - a module-level 'known cached' memo makes every later page render fail instead (shared with C19-S1)",
+               lambda sub: C19.s1(sub, proj, w), only=lambda o: "_is_script_in_cache" in o.construct)
     chk.rule("S20", "twin-kind argument agreement, package-wide: an argument that names one script kind (`css_input_hash`, `.js_file`, 'css') is bound to a callee parameter / field of the same kind - the js / css twins have the same types, so a swap compiles and passes every single-kind test (shared with C19-S14, C16)")
     generic.kind_named_args(chk, "S20", proj, w.cg, ["component", "dependencies", "component_media", "components.dynamic"], floor=12)
     chk.borrow("S19", "every collected tag / URL reaches the output under its OWN kind: kind flow (js / css lattice) through _prepare_tags_and_urls, _process_dep_declarations, _gen_exec_script and render_dependencies - a Media(js=..) / Media(css=..) list, a ScriptType argument, a wire key or a placeholder replacement never receives the other kind, and no kind-carrying part of a helper's result is dropped (shared with C19-S11)",
